@@ -7,12 +7,19 @@
 EXTENDS VectorImpl, TLC
 
 CONSTANTS NVals, MaxLen, MaxHist, MaxSrc, MaxCap
-VARIABLES v, prev, res, other, tags, hist
+VARIABLES v, prev, res, other, tags, hist, fin
 
 Vals == 1..NVals
-vars == <<v, prev, res, other, tags, hist>>
+vars == <<v, prev, res, other, tags, hist, fin>>
 LastOp == IF hist = <<>> THEN [op |-> "init"] ELSE hist[Len(hist)]
-View == <<v, prev, LastOp>>
+(* Exploration: a step either ADVANCES (fin' = FALSE: the successor is identified by the object     *)
+(* state and the depth only, and is expanded further) or FINISHES (fin' = TRUE: the successor keeps   *)
+(* the pre-state and the operation in its identity and is a leaf).  So every transition (pre-state,   *)
+(* operation) of the implementation-shaped graph is generated, checked and exported once, while the   *)
+(* search itself runs over the distinct object states.  The depth in the view keeps the set of         *)
+(* explored states exact for any number of workers.                                                    *)
+View == IF fin THEN <<v, prev, LastOp, TRUE>> ELSE <<v, Len(hist), FALSE>>
+Deviated == "deviation" \in tags             \* the last step was a known deviation: the object is broken, stop there
 
 Srcs == UNION {[1..n -> Vals] : n \in 0..MaxSrc}
 Pos == 0..MaxLen
@@ -33,7 +40,7 @@ Ops == [op : {"pushBack"}, v : Vals]
        \cup [op : {"swap", "assign", "assignRange", "cmp"}, src : Srcs]
        \cup [op : {"at"}, i : 0..MaxLen]
 
-Init == v = NewVec(0) /\ prev = NewVec(0) /\ res = 0 /\ other = <<>> /\ tags = {} /\ hist = <<>>
+Init == v = NewVec(0) /\ prev = NewVec(0) /\ res = 0 /\ other = <<>> /\ tags = {} /\ hist = <<>> /\ fin = FALSE
 
 (* branches worth seeing in the exported histories *)
 TagsOf(V, op, V2) ==
@@ -51,16 +58,17 @@ Do(op, g) ==
   /\ (op.op = "resize" => op.n <= MaxLen) /\ (op.op \in {"resize", "resizeV", "resizeSelf"} => op.n # v.size)
   /\ (op.op = "reserve" => op.n > v.alloc)
   /\ (g => ~KnownDeviation(v, op))
-  /\ ~v.uaf
   /\ LET r == ImplApply(v, op) IN
        /\ v' = r.v /\ res' = r.res /\ other' = r.other /\ tags' = TagsOf(v, op, r.v)
   /\ prev' = v
   /\ hist' = Append(hist, op)
 
-NextG(g) == Len(hist) < MaxHist /\ \E op \in Ops : Do(op, g)
+NextG(g) == /\ ~fin /\ Len(hist) < MaxHist
+            /\ \E op \in Ops : /\ Do(op, g)
+                                /\ \/ fin' = TRUE
+                                   \/ fin' = FALSE /\ Len(hist) + 1 < MaxHist /\ "deviation" \notin tags' /\ v'.size <= MaxLen
 Spec == Init /\ [][NextG(TRUE)]_vars
 GenSpec == Init /\ [][NextG(FALSE)]_vars
-Bound == v.size <= MaxLen
 
 (* ---- properties ---------------------------------------------------------------------------- *)
 StepRefines ==
@@ -72,14 +80,11 @@ StepRefines ==
      /\ VecOtherOK(Elems(prev'), op, other')
      /\ (op.op = "reserve" => v'.alloc >= op.n)
      /\ ~v'.uaf
-Refinement == [][StepRefines]_vars
+Refinement == [][~KnownDeviation(prev', hist'[Len(hist')]) => StepRefines]_vars
 
-WellFormedInv == WellFormed(v)
+WellFormedInv == ~Deviated => WellFormed(v)
 
-(* the known deviations are real: where the predicate holds the transcribed algorithm does break    *)
+(* the known deviations are real: under GenSpec every step taken where the predicate holds breaks   *)
 (* the contract (a repaired algorithm makes this fail; predicate and known finding go together)      *)
-DeviationsAreReal ==
-  \A op \in [op : {"insertSelf"}, pos : Pos, n : 1..2, i : Pos] \cup [op : {"resizeSelf"}, n : 0..MaxLen, i : Pos] :
-     (VecApply(Elems(v), op).ok /\ KnownDeviation(v, op) /\ v.size + 2 <= MaxLen + 2)
-        => LET r == ImplApply(v, op) IN r.v.uaf \/ Elems(r.v) # VecApply(Elems(v), op).st
+DeviationsAreReal == [][KnownDeviation(prev', hist'[Len(hist')]) => ~StepRefines]_vars
 =============================================================================
